@@ -140,6 +140,77 @@ func init() {
 				run(vs, lens, "Resample", c.rng.Intn(27)-1, 1, 1, useL1)
 			}
 		}
+		// (2b) an interval a hair above or below an exact divisor of the length: the number of points is
+		// floor(length / d) + 1 for the d that was given, not for a rounded one
+		for i := 0; i < c.pick(1500, 30000); i++ {
+			k := 1 + c.rng.Intn(4)
+			vs := [][2]int{{c.rng.Intn(5), c.rng.Intn(5)}}
+			total := 0
+			for j := 0; j < k; j++ {
+				st := steps[c.rng.Intn(len(steps))]
+				last := vs[len(vs)-1]
+				vs = append(vs, [2]int{last[0] + st[0], last[1] + st[1]})
+				total += st[2]
+			}
+			if total == 0 {
+				continue
+			}
+			parts := 1 + c.rng.Intn(8) // d0 = total / parts divides the length exactly
+			side := 1 - 2*c.rng.Intn(2)
+			// a hair: 1e-10 relative - far above the rounding of one float64 division, far below anything a caller means
+			d := float64(total) / float64(parts) * (1 + float64(side)*1e-10)
+			ls := make(orb.LineString, len(vs))
+			for j, v := range vs {
+				ls[j] = orb.Point{float64(v[0]), float64(v[1])}
+			}
+			e := map[string]interface{}{"k": "icount", "fn": "ToInterval", "total": total, "parts": parts, "side": side, "nt": 1}
+			setCurrent("resample.ToInterval(hair)", e)
+			var out orb.LineString
+			site := guard(func() { out = resample.ToInterval(ls, planar.Distance, d) })
+			if site != "" {
+				c.emit(panicEvent("resample.ToInterval", site, e))
+				continue
+			}
+			e["n"] = len(out)
+			e["ends"] = 0
+			if len(out) >= 1 && out[0] == ls[0] && (len(out) < 2 || out[len(out)-1] == ls[len(ls)-1]) {
+				e["ends"] = 1
+			}
+			c.emit(e)
+		}
+		// (2c) lines with coordinates that are not exact in binary (segment lengths and their sums round): the statement
+		// about count and end points does not depend on that
+		for i := 0; i < c.pick(3000, 60000); i++ {
+			k := 2 + c.rng.Intn(6)
+			ls := make(orb.LineString, k)
+			x, y := 0.0, 0.0
+			for j := range ls {
+				ls[j] = orb.Point{x, y}
+				x += float64(c.rng.Intn(20)) / 10
+				if c.rng.Intn(3) == 0 {
+					y += float64(c.rng.Intn(20)-10) / 10
+				}
+			}
+			if planar.Distance(ls[0], ls[k-1]) == 0 && planar.Length(ls) == 0 {
+				continue
+			}
+			N := 2 + c.rng.Intn(20)
+			e := map[string]interface{}{"k": "fcount", "fn": "Resample", "nreq": N, "nt": 1}
+			setCurrent("resample.Resample(inexact)", e)
+			var out orb.LineString
+			first, last := ls[0], ls[k-1]
+			site := guard(func() { out = resample.Resample(ls.Clone(), planar.Distance, N) })
+			if site != "" {
+				c.emit(panicEvent("resample.Resample", site, e))
+				continue
+			}
+			e["n"] = len(out)
+			e["ends"] = 0
+			if len(out) >= 2 && out[0] == first && out[len(out)-1] == last {
+				e["ends"] = 1
+			}
+			c.emit(e)
+		}
 		// (3) great-circle distance functions: count, endpoints, order on eastward paths
 		ng := c.pick(2000, 20000)
 		for i := 0; i < ng; i++ {
